@@ -83,6 +83,16 @@ Definition wds_gen (W : world) : gen_fn := fun t _ wc dsub init =>
            (Some (diff dsub (rnames (W t)))) true false
   else mkG None None false false.
 
+(* v3.WorkloadAuthorizationType (type.googleapis.com/istio.security.Authorization): an internal type
+   for Session.v (wildcard semantics, not generator-managed: requires_names_mod AUTHZ = false) *)
+Definition AUTHZ : xds_type := OTHER 4.
+
+(* pilot/pkg/xds/workload.go WorkloadRBACGenerator.GenerateDeltas for a Forced request: every
+   policy is returned, expected = w.ResourceNames, removed = expected - generated, usedDelta = true.
+   (Resources carry no version: the world of this type uses version 0.) *)
+Definition rbac_gen (W : world) : gen_fn := fun t Q _ _ _ =>
+  mkG (Some (W t)) (Some (diff Q (rnames (W t)))) true false.
+
 (* ------------------------------------------------------------------ 3. pushes and request processing *)
 
 (* pilot/pkg/xds/delta.go neverRemoveDelta *)
